@@ -1,1 +1,353 @@
-/- C15 — property theorems (stub: the slice is not built yet). -/
+import GB.C15.ProofsPoll
+import GB.C15.ProofsWake
+import GB.Generated.Facts
+/-
+  C15 — description updates are delivered exactly when the target's contract changes.
+  Property theorems only; helper lemmas live in ProofsHash / ProofsPoll / ProofsWake.
+
+  Standing hypotheses (listed as assumptions in props/C15.json):
+  * `sha` (SHA-256) is injective on the pre-images that occur — collision freedom;
+  * observations are well formed (`ObsWF`): service names pairwise distinct (guaranteed by
+    `listServiceNames`), file names pairwise distinct and equal to the name inside the
+    descriptor bytes (`fileDescriptors`, `retrieveDependencies`; property C05), lengths < 2^64.
+  Nothing is assumed about the concatenation any more: the length-prefixed pre-image of the
+  fixed code is proved injective (`C15_encoding_injective`); the old one is refuted
+  (`C15_prefix_concat_collision`).
+-/
+open GB GB.C15
+
+/-! ## regenerated facts: the statement skeletons the models follow -/
+
+/-- `Resolver.watch`: hook, resolve + callbacks, hook, select{timer | resolveNow → hook, re-arm | done → close, return}. -/
+theorem C15_facts_watch :
+    GB.Generated.resolverWatchSkeleton =
+      ["for", "hook:resolver.beforeResolve", "assign:resolve", "if:UpdateDesc|ReportError", "hook:resolver.beforeSelect",
+       "select", "case:afterInterval", "case:resolveNow", "hook:resolver.woken", "call:newResolveNow",
+       "case:done", "close:done", "return"] := by
+  decide
+
+/-- `newResolveNow`: the channel is replaced BEFORE the once-func is published (two steps `mkChan`, `storePtr`). -/
+theorem C15_facts_rearm :
+    GB.Generated.resolverRearmSkeleton = ["assign:resolveNow=make", "assign:f=OnceFunc(close:resolveNow)", "store:notifyResolveNow"] := by
+  decide
+
+/-- `resolveWithMethod`: hashes compared before the parse, saved only after it; both hash functions
+    sort their input and write every item length-prefixed; `ResolveNow` = load + call, `Close` = send on `done`. -/
+theorem C15_facts_bookkeeping :
+    GB.Generated.resolverHashOrder = ["hash:proto", "hash:services", "compare:return-nil", "parse", "save:lastProtoHash", "save:lastServicesHash"] ∧
+    GB.Generated.resolverHashWrites = [("hashNamedProtoBundles", "sort,writeLenPrefixed"), ("hashServiceNames", "sort,writeLenPrefixed"), ("writeLenPrefixed", "PutUint64(len),Write,Write")] ∧
+    GB.Generated.resolverResolveNowClose = ["ResolveNow:load:notifyResolveNow,call", "Close:send:done"] ∧
+    GB.Generated.resolverFallback = ["range:methodPriority", "if:Unimplemented:continue", "elseif:nil:swap(0,i)", "return"] := by
+  decide
+
+/-! ## (a) fingerprints -/
+
+/-- The pre-image the fixed code hashes determines the list of items: no two different lists of
+    byte strings share it (each item is written behind its 8-byte length). -/
+theorem C15_encoding_injective (l₁ l₂ : List Bytes) (h₁ : ∀ b ∈ l₁, Short b) (h₂ : ∀ b ∈ l₂, Short b)
+    (h : encodeList l₁ = encodeList l₂) : l₁ = l₂ :=
+  encodeList_injective l₁ l₂ h₁ h₂ h
+
+/-- Negative witness for the pre-fix hash input (plain concatenation): the service sets {a.b, c}
+    and {a.bc} differ, yet their sorted concatenations are the same byte string; likewise two
+    bundle sets that split the same bytes at another point. -/
+theorem C15_prefix_concat_collision :
+    svcPreOld [[97, 46, 98], [99]] = svcPreOld [[97, 46, 98, 99]] ∧
+    sameSet [[97, 46, 98], [99]] [[97, 46, 98, 99]] = false ∧
+    svcPre [[97, 46, 98], [99]] ≠ svcPre [[97, 46, 98, 99]] ∧
+    protoPreOld [⟨[97], [1, 2]⟩, ⟨[98], [3]⟩] = protoPreOld [⟨[97], [1]⟩, ⟨[98], [2, 3]⟩] ∧
+    protoPre [⟨[97], [1, 2]⟩, ⟨[98], [3]⟩] ≠ protoPre [⟨[97], [1]⟩, ⟨[98], [2, 3]⟩] := by
+  decide
+
+/-- Fingerprints compare contracts as SETS: for well-formed observations the two hashes are both
+    equal iff the service-name sets and the file-descriptor sets are equal (order, i.e. the
+    server's listing order and the retrieval order, is irrelevant). -/
+theorem C15_fingerprint_compares_sets {H : Type} (sha : Bytes → H) (hinj : Function.Injective sha)
+    (nameOf : Bytes → Bytes) (o l : Obs) (ho : ObsWF nameOf o) (hl : ObsWF nameOf l) :
+    (sha (protoPre o.files) = sha (protoPre l.files) ∧ sha (svcPre o.names) = sha (svcPre l.names)) ↔
+      sameContract o l = true := by
+  rw [← pre_eq_iff_sameContract nameOf o l ho hl]
+  exact ⟨fun ⟨a, b⟩ => ⟨hinj a, hinj b⟩, fun ⟨a, b⟩ => ⟨congrArg sha a, congrArg sha b⟩⟩
+
+/-- `listServiceNames` hands on pairwise distinct names (so `ObsWF.namesNodup` is met by the code). -/
+theorem C15_filter_nodup (ignore listed : List Bytes) : (filterNames ignore listed).Nodup := by
+  have aux : ∀ (l seen : List Bytes), (filterNamesAux ignore l seen).Nodup ∧
+      ∀ x ∈ filterNamesAux ignore l seen, x ∉ seen := by
+    intro l
+    induction l with
+    | nil => intro seen; simp [filterNamesAux]
+    | cons s rest ih =>
+      intro seen
+      simp only [filterNamesAux]
+      split
+      · exact ih seen
+      · rename_i hs
+        have hs' : s ∉ seen := by simpa using hs
+        split
+        · refine ⟨(ih (s :: seen)).1, fun x hx => ?_⟩
+          have := (ih (s :: seen)).2 x hx
+          exact fun h => this (List.mem_cons_of_mem _ h)
+        · refine ⟨List.nodup_cons.mpr ⟨fun h => (ih (s :: seen)).2 s h List.mem_cons_self, (ih (s :: seen)).1⟩, ?_⟩
+          intro x hx
+          rcases List.mem_cons.mp hx with rfl | hx
+          · exact hs'
+          · have := (ih (s :: seen)).2 x hx
+            exact fun h => this (List.mem_cons_of_mem _ h)
+  exact (aux listed []).1
+
+/-! ## (a) histories of polls -/
+
+/-- **Updates exactly on change.** Over every history of target behaviours `envs` (per poll and per
+    reflection version: Unimplemented / failure at any step / complete fetch, parsable or not),
+    the callback sequence of the resolver's bookkeeping equals that of the specification whose only
+    state is the last DELIVERED contract and which compares contracts as sets; and the hash fields
+    always hold the fingerprint of that last delivered contract. -/
+theorem C15_updates {H D : Type} [DecidableEq H] (sha : Bytes → H) (hinj : Function.Injective sha)
+    (nameOf : Bytes → Bytes) (envs : List (Version → Attempt D))
+    (hwf : ∀ env ∈ envs, ∀ v o p, env v = .fetched o p → ObsWF nameOf o) :
+    runPolls sha (RState.init H) envs = specRun none (outcomesOf sha (RState.init H) envs) ∧
+    Tracks sha (finalState sha (RState.init H) envs) (lastDelivered none (outcomesOf sha (RState.init H) envs)) :=
+  runPolls_spec sha hinj nameOf envs (RState.init H) none hwf ⟨rfl, rfl⟩ (fun _ h => by cases h)
+
+/-- What the specification delivers, poll by poll: an update iff the poll fetched a parsable
+    contract that differs from the last delivered one (so the first successful poll always
+    delivers); nothing iff it fetched the last delivered contract again; otherwise exactly one
+    error report — and only an update changes the delivered state. -/
+theorem C15_update_iff {D : Type} (last : Option Obs) (oc : Outcome D) :
+    (∀ d, (specPoll last oc).2 = [.update d] ↔ ∃ o, oc = .fetched o (some d) ∧ sameAsLast last o = false) ∧
+    ((specPoll last oc).2 = [] ↔ ∃ o p, oc = .fetched o p ∧ sameAsLast last o = true) ∧
+    ((∃ c, (specPoll last oc).2 = [.reportError c]) ↔
+      (∃ c, oc = .failed c) ∨ ∃ o, oc = .fetched o none ∧ sameAsLast last o = false) ∧
+    ((specPoll last oc).1 ≠ last → ∃ d, (specPoll last oc).2 = [.update d]) ∧
+    (last = none → ∀ o d, oc = .fetched o (some d) → (specPoll last oc) = (some o, [.update d])) := by
+  cases oc with
+  | failed c => simp [specPoll]
+  | fetched o p =>
+    cases hs : sameAsLast last o <;> cases p <;> simp [specPoll, hs]
+    · intro d
+      constructor
+      · intro e; exact ⟨o, ⟨rfl, e⟩, hs⟩
+      · rintro ⟨o', ⟨rfl, e⟩, _⟩; exact e
+    · intro h; subst h; simp [sameAsLast] at hs
+
+/-- **A failed poll only reports an error and leaves the delivered state alone; the next poll
+    recovers**: it is judged against the contract delivered BEFORE the failure (an update iff the
+    contract differs from that one) — also when the failure was an unparsable contract. -/
+theorem C15_failure_then_recovery {H D : Type} [DecidableEq H] (sha : Bytes → H) (st : RState H)
+    (env : Version → Attempt D) (hfail : ∀ v, (∃ c, env v = .fail c) ∨ env v = .unimplemented)
+    (last : Option Obs) (c : ErrClass) (o : Obs) (rest : List (Outcome D)) :
+    (∃ e, (pollStep sha st env).2.1 = [.reportError e]) ∧
+    (pollStep sha st env).1.lastProtoHash = st.lastProtoHash ∧
+    (pollStep sha st env).1.lastServicesHash = st.lastServicesHash ∧
+    specRun last (.failed c :: rest) = [.reportError c] :: specRun last rest ∧
+    (sameAsLast last o = false → specRun last (.fetched o (none : Option D) :: rest) = [.reportError .other] :: specRun last rest) := by
+  have loop : ∀ (l : List Version) (i : Nat) (tried : List Version),
+      (∃ e, callbacksOf (resolveLoop sha env st l i tried).2.1 = [.reportError e]) ∧
+      (resolveLoop sha env st l i tried).1.lastProtoHash = st.lastProtoHash ∧
+      (resolveLoop sha env st l i tried).1.lastServicesHash = st.lastServicesHash := by
+    intro l
+    induction l with
+    | nil => intro i tried; simp [resolveLoop, callbacksOf]
+    | cons m rest ih =>
+      intro i tried
+      rcases hfail m with ⟨e, he⟩ | he
+      · simp [resolveLoop, he, resolveWithMethod, callbacksOf]
+      · simp only [resolveLoop, he, resolveWithMethod]; exact ih _ _
+  refine ⟨(loop _ _ _).1, (loop _ _ _).2.1, (loop _ _ _).2.2, by simp [specRun, specPoll], ?_⟩
+  intro h
+  simp [specRun, specPoll, h]
+
+/-! ## (a) version fallback -/
+
+/-- **Unimplemented never hides a working version**: if version `w` answers (anything but
+    Unimplemented) and every other version answers Unimplemented, the poll's outcome is `w`'s
+    answer whatever the current priority order is. -/
+theorem C15_fallback {D : Type} (env : Version → Attempt D) (w : Version) (oc : Outcome D)
+    (hw : outcomeOfAttempt (env w) = some oc) (hother : ∀ v, v ≠ w → env v = .unimplemented)
+    (prio : List Version) (hmem : w ∈ prio) : outcomeOf env prio = oc :=
+  outcomeOf_fallback env w oc hw hother prio hmem
+
+/-- **The priority is remembered**: the method list stays a permutation of the two versions; after
+    a successful poll (update or unchanged) the version that answered is first, and the next poll
+    opens its first stream with it. -/
+theorem C15_priority_remembered {H D : Type} [DecidableEq H] (sha : Bytes → H) (st : RState H)
+    (env env' : Version → Attempt D) :
+    (pollStep sha st env).1.methodPriority.Perm st.methodPriority ∧
+    (((pollStep sha st env).2.1 = [] ∨ ∃ d, (pollStep sha st env).2.1 = [.update d]) →
+      (pollStep sha st env).1.methodPriority.head? = (pollStep sha st env).2.2.getLast? ∧
+      (st.methodPriority ≠ [] →
+        (pollStep sha (pollStep sha st env).1 env').2.2.head? = (pollStep sha st env).2.2.getLast?)) := by
+  obtain ⟨h1, h2, _⟩ := resolveLoop_prio sha env st st.methodPriority 0 [] (by simp)
+  refine ⟨h1, fun hs => ?_⟩
+  have hsucc : (resolveLoop sha env st st.methodPriority 0 []).2.1.isSuccess = true := by
+    simp only [pollStep, resolve] at hs
+    cases hr : (resolveLoop sha env st st.methodPriority 0 []).2.1 <;>
+      simp [hr, callbacksOf, MethodResult.isSuccess] at hs ⊢
+  have hh := h2 hsucc
+  refine ⟨hh, fun hne => ?_⟩
+  obtain ⟨_, _, k, hk, h3⟩ := resolveLoop_prio sha env' (pollStep sha st env).1
+    (pollStep sha st env).1.methodPriority 0 [] (by simp)
+  have hne' : (pollStep sha st env).1.methodPriority ≠ [] := by
+    intro h0
+    have := h1.length_eq
+    simp only [pollStep, resolve] at h0
+    rw [h0] at this
+    exact hne (List.length_eq_zero_iff.mp this.symm)
+  have hk1 := hk hne'
+  simp only [pollStep, resolve] at h3 hh ⊢
+  rw [h3, ← hh]
+  cases hp : (resolveLoop sha env st st.methodPriority 0 []).1.methodPriority with
+  | nil => simp [pollStep, resolve, hp] at hne'
+  | cons a t =>
+    cases k with
+    | zero => omega
+    | succ k => simp
+
+theorem C15_priority_perm {H D : Type} [DecidableEq H] (sha : Bytes → H) (envs : List (Version → Attempt D)) :
+    (finalState sha (RState.init H) envs).methodPriority.Perm [.v1, .v1alpha] := by
+  have : ∀ (envs : List (Version → Attempt D)) (st : RState H), st.methodPriority.Perm [.v1, .v1alpha] →
+      (finalState sha st envs).methodPriority.Perm [.v1, .v1alpha] := by
+    intro envs
+    induction envs with
+    | nil => intro st h; exact h
+    | cons env rest ih =>
+      intro st h
+      exact ih _ ((C15_priority_remembered sha st env env).1.trans h)
+  exact this envs _ (List.Perm.refl _)
+
+/-! ## (b) wake-up protocol -/
+
+/-- **No lost wake-up.** In every reachable state of the poller / callers / closer system, for
+    every COMPLETED `ResolveNow` call: a poll has started after the call loaded the pointer, or a
+    poll start is on its way (`Coming`: the poller is past its wake-up, or it will find its armed
+    channel closed), or `Close` has been called. This covers calls that land during a poll, at the
+    select, and between wake-up and re-arm (where the call hits the spent once-func). -/
+theorem C15_no_lost_wakeup (manual : Bool) (s : W) (h : GB.LTS.Reachable step (W.init manual) s)
+    (i : Nat) (hf : (s.callers i).pc = .finished) :
+    (s.callers i).served = true ∨ Coming s ∨ s.closer ≠ .idle :=
+  inv_no_lost s (inv_reachable manual s h) i hf
+
+/-- **The once-func closes the armed channel.** Its closure reads the field `r.resolveNow` when it
+    runs; in every reachable state a caller that won the once of generation `g` finds `g` still in
+    that field (the poller cannot re-arm before this very close), so the close wakes the poller and
+    the field read is ordered before the poller's write. -/
+theorem C15_winner_closes_armed_channel (manual : Bool) (s : W) (h : GB.LTS.Reachable step (W.init manual) s)
+    (i : Nat) (hw : (s.callers i).pc = .won) :
+    (s.callers i).gen = s.cur ∧ s.ppc ≠ .woken ∧ s.ppc ≠ .madeChan :=
+  inv_winner_current s (inv2_reachable manual s h).1 (inv2_reachable manual s h).2 i hw
+
+/-- **A coming poll does come**: while one is coming and `Close` has not been called, some step of
+    the poller (or of the caller that owes the channel close) is enabled and strictly decreases
+    the distance `rank` to the poll start; no other step (any caller, any label except calling
+    `Close`) increases the distance or makes the poll not coming. (Safety + rank = liveness under
+    weak fairness of the poller and of a caller inside `ResolveNow`.) -/
+theorem C15_wake_progress (manual : Bool) (s : W) (h : GB.LTS.Reachable step (W.init manual) s)
+    (hc : Coming s) (hidle : s.closer = .idle) :
+    (∃ l s', step s l = some s' ∧ (rank s' < rank s ∨ l = .pollStart)) ∧
+    (∀ l s', step s l = some s' → l ≠ .closeCall →
+      l = .pollStart ∨ (Coming s' ∧ rank s' ≤ rank s ∧ s'.closer = .idle)) :=
+  ⟨coming_progress s hc, fun l s' hs hl => coming_stable s s' l (inv_reachable manual s h) hc hidle hs hl⟩
+
+/-- **Close returned ⇒ the poller is past its loop**: it has received from `done` and can only
+    `close(done); return`; no watcher callback ever happens after `Close` returned. -/
+theorem C15_close (manual : Bool) (s : W) (h : GB.LTS.Reachable step (W.init manual) s) :
+    s.cbAfterClose = false ∧
+    (s.closer = .returned → (s.ppc = .gotDone ∨ s.ppc = .exited) ∧
+      ∀ l s', step s l = some s' → l = .closeDone ∨ ∃ i, l = .load i ∨ l = .fire i ∨ l = .closeCh i) := by
+  have hi := inv_reachable manual s h
+  exact ⟨hi.f, fun hr => ⟨hi.e2 (Or.inr hr), fun l s' hs => after_close_only_exit s s' l hi hr hs⟩⟩
+
+/-- Trace form: in no execution does a poll start or end (hence no callback) after `Close` returned. -/
+theorem C15_close_trace (manual : Bool) (ls₁ ls₂ : List Lbl) (s : W)
+    (h : GB.LTS.run step (W.init manual) (ls₁ ++ [.closeRet] ++ ls₂) = some s) :
+    .pollStart ∉ ls₂ ∧ ∀ cb, .pollEnd cb ∉ ls₂ := by
+  have split : ∀ (a b : List Lbl) (s0 s2 : W), GB.LTS.run step s0 (a ++ b) = some s2 →
+      ∃ s1, GB.LTS.run step s0 a = some s1 ∧ GB.LTS.run step s1 b = some s2 := by
+    intro a
+    induction a with
+    | nil => intro b s0 s2 h; exact ⟨s0, rfl, h⟩
+    | cons x xs ih =>
+      intro b s0 s2 h
+      simp only [List.cons_append, GB.LTS.run] at h ⊢
+      cases hx : step s0 x with
+      | none => simp [hx] at h
+      | some s' => rw [hx] at h; simp only at h ⊢; exact ih b s' s2 h
+  obtain ⟨s1, hr1, hr2⟩ := split _ _ _ _ h
+  obtain ⟨s0, hr0, hrc⟩ := split _ _ _ _ hr1
+  have hreach1 : GB.LTS.Reachable step (W.init manual) s1 :=
+    GB.LTS.run_reachable step _ _ _ GB.LTS.Reachable.init hr1
+  have hret : s1.closer = .returned := by
+    simp only [GB.LTS.run] at hrc
+    cases hst : step s0 .closeRet with
+    | none => simp [hst] at hrc
+    | some t =>
+      rw [hst] at hrc
+      simp at hrc
+      subst hrc
+      simp only [step] at hst
+      split at hst <;> simp at hst
+      subst hst; rfl
+  have tail : ∀ (ls : List Lbl) (a b : W), Inv a → a.closer = .returned → GB.LTS.run step a ls = some b →
+      .pollStart ∉ ls ∧ ∀ cb, .pollEnd cb ∉ ls := by
+    intro ls
+    induction ls with
+    | nil => intro a b _ _ _; simp
+    | cons l rest ih =>
+      intro a b hi hr hrun
+      simp only [GB.LTS.run] at hrun
+      cases hl : step a l with
+      | none => simp [hl] at hrun
+      | some a' =>
+        rw [hl] at hrun
+        have hstep := after_close_only_exit a a' l hi hr hl
+        have hi' := inv_step a a' l hi hl
+        have hr' : a'.closer = .returned := by
+          rcases hstep with rfl | ⟨i, rfl | rfl | rfl⟩
+          · simp only [step] at hl; split at hl <;> simp at hl; subst hl; exact hr
+          · simp only [step] at hl; split at hl <;> simp at hl; subst hl; exact hr
+          · simp only [step] at hl
+            split at hl <;> try simp at hl
+            split at hl <;> simp at hl <;> subst hl <;> exact hr
+          · simp only [step] at hl; split at hl <;> simp at hl; subst hl; exact hr
+        have := ih a' b hi' hr' hrun
+        refine ⟨?_, fun cb => ?_⟩
+        · intro hm
+          rcases List.mem_cons.mp hm with e | e
+          · rcases hstep with h | ⟨i, h | h | h⟩ <;> rw [← e] at h <;> cases h
+          · exact this.1 e
+        · intro hm
+          rcases List.mem_cons.mp hm with e | e
+          · rcases hstep with h | ⟨i, h | h | h⟩ <;> rw [← e] at h <;> cases h
+          · exact this.2 cb e
+  exact tail ls₂ s1 s (inv_reachable manual s1 hreach1) hret hr2
+
+/-! ## non-vacuity -/
+
+/-- A `ResolveNow` that lands between wake-up and re-arm fires the spent once-func (no channel is
+    closed for it) — and is still covered: the poller is on its way to the next poll. -/
+example :
+    (GB.LTS.run step (W.init true)
+      [.pollStart, .pollEnd true, .load 0, .fire 0, .closeCh 0, .wake, .load 1, .fire 1]).map
+      (fun s => (s.ppc, (s.callers 1).pc, (s.callers 1).served, s.closed, s.cur)) =
+    some (.woken, .finished, false, [0], 0) := by decide
+
+/-- A `ResolveNow` during a poll: the poller finds the channel closed at its select and polls again. -/
+example :
+    (GB.LTS.run step (W.init true)
+      [.pollStart, .load 0, .fire 0, .closeCh 0, .pollEnd false, .wake, .mkChan, .storePtr, .pollStart]).map
+      (fun s => (s.ppc, (s.callers 0).served, s.polls, s.cur, s.ptr)) =
+    some (.resolving, true, 2, 1, 1) := by decide
+
+/-- Close racing a poll: it returns only after the poller took `done`; the run ends `exited`. -/
+example :
+    (GB.LTS.run step (W.init true)
+      [.pollStart, .closeCall, .pollEnd true, .takeDone, .closeRet, .closeDone]).map
+      (fun s => (s.ppc, s.closer, s.cbAfterClose)) = some (.exited, .returned, false) := by decide
+
+/-- The hypotheses of `C15_updates` are satisfiable and the history is non-trivial: first success
+    delivers, the same set in another order is silent, a failure reports, a change delivers. -/
+example :
+    runPolls (fun b => b) (RState.init Bytes) exHistory =
+      [[.update 1], [], [.reportError .unavailable], [], [.reportError .other], [.update 2], [.update 1]] ∧
+    (finalState (fun b => b) (RState.init Bytes) exHistory).methodPriority = [.v1alpha, .v1] := by
+  decide
